@@ -39,6 +39,8 @@ def build(prop, tier, seed, mod, results, wall, violations, known_lines, inconcl
         discharged=verdicts.get('unsat', 0),
         queries_by_verdict=dict(verdicts),
         queries_by_form=dict(forms),
+        decided_without_solver_call=sum(1 for o in obligations if not o.get('secs')),
+        decided_without_solver_call_note='obligations whose two sides are identical after term normalisation (z3 simplify) or that are purely structural (index sets, orders, object identity) are recorded with secs=0; all others are SMT queries',
         solver_s=round(sum(r.get('solver_s', 0) for r in results), 3),
         slowest_queries=slowest,
         cases=len(results),
